@@ -580,6 +580,26 @@ def _detect_date_type_overrides(
     return overrides
 
 
+def _float_text_without_exponent(text_sql: str) -> str:
+    """Spell out the VARCHAR rendering of a floating-point column without a negative exponent.
+
+    DuckDB renders doubles below 1e-4 as ``d.ddde-XX`` and its VARCHAR -> DECIMAL cast does not
+    round that notation correctly: once it has dropped more digits than the mantissa has, the
+    leading digit decides (``5e-30`` was stored as one unit of the last decimal), and the mantissa
+    alone must fit the integer digits of the target type (any float below 1e-4 was rejected when
+    width = scale). ``d.ddde-XX`` is rewritten to the plain decimal ``0.`` + (XX - 1 zeros) + digits,
+    which the cast rounds half away from zero like every other value; other renderings are kept.
+    """
+    mantissa = f"split_part({text_sql}, 'e-', 1)"
+    exponent = f"CAST(split_part({text_sql}, 'e-', 2) AS INTEGER)"
+    return (
+        f"CASE WHEN contains({text_sql}, 'e-') THEN "
+        f"(CASE WHEN starts_with({text_sql}, '-') THEN '-' ELSE '' END) || '0.' "
+        f"|| repeat('0', {exponent} - 1) || replace(ltrim({mantissa}, '-'), '.', '') "
+        f"ELSE {text_sql} END"
+    )
+
+
 def _build_dataframe_select_columns(
     components: Dict[str, Component],
     df_columns: Optional[List[str]] = None,
@@ -603,7 +623,10 @@ def _build_dataframe_select_columns(
         if df_col_set is not None and comp_name not in df_col_set:
             exprs.append(f'CAST(NULL AS {target_type}) AS "{comp_name}"')
         elif comp.data_type == Number:
-            exprs.append(f'CAST(CAST("{comp_name}" AS VARCHAR) AS {target_type}) AS "{comp_name}"')
+            as_text = f'CAST("{comp_name}" AS VARCHAR)'
+            if source_type in ("DOUBLE", "FLOAT"):
+                as_text = _float_text_without_exponent(as_text)
+            exprs.append(f'CAST({as_text} AS {target_type}) AS "{comp_name}"')
         elif comp.data_type == Date and (
             "VARCHAR" in source_type or source_type.startswith("ENUM")
         ):
